@@ -2091,7 +2091,7 @@ Qed.
 (* ================================================================================== *)
 (* L. histories of macro-level operations                                               *)
 Definition macro_level (o : op) : Prop :=
-  match o with OSetIn [] _ _ => True | ORun => True | _ => False end.
+  match o with OSetIn [] _ _ => True | ORun => True | OSetBad [] _ => True | _ => False end.
 
 Lemma set_in_out_of_range d s v k x : wired d s -> coh d s v -> List.length (d_params d) <= k -> set_in s v k x = v.
 Proof.
@@ -2106,7 +2106,8 @@ Lemma apply_op_coh d s v o v' n :
   wfd d = true -> rets_distinct d = true -> wired d s -> coh d s v -> macro_level o ->
   apply_op s v o = Some (v', n) -> coh d s v'.
 Proof.
-  intros Hwf Hrd Hw Hc Hm H. destruct o as [[|r p] k x|p l x|]; simpl in Hm; try tauto; simpl in H.
+  intros Hwf Hrd Hw Hc Hm H. destruct o as [[|r p] k x|p l x| |[|r p] k]; simpl in Hm; try tauto; simpl in H;
+    [| |destruct (refuses_at s [] k); [inversion H; subst; exact Hc|discriminate]].
   - inversion H; subst. rewrite set_in_at_nil.
     destruct (Nat.ltb_spec k (List.length (d_params d))).
     + apply set_in_coh; auto.
@@ -2439,7 +2440,8 @@ Qed.
 
 Lemma apply_op_vshape s v o v' n : vshape s v -> apply_op s v o = Some (v', n) -> vshape s v'.
 Proof.
-  intros Hv H. destruct o as [p k x|p l x|]; simpl in H.
+  intros Hv H. destruct o as [p k x|p l x| |p k]; simpl in H;
+    [| | |destruct (refuses_at s p k); [inversion H; subst; exact Hv|discriminate]].
   - inversion H; subst. now apply vshape_set_in_at.
   - inversion H; subst. now apply vshape_set_out_at.
   - destruct (run s v) as [[[v1 c1] p1]|] eqn:Er; [|discriminate]. inversion H; subst. eapply vshape_run; eauto.
@@ -3166,7 +3168,7 @@ Fixpoint free_out (s : snode) (p : list kidref) (l : nat) {struct s} : Prop :=
   end.
 
 Definition free_op (s : snode) (o : op) : Prop :=
-  match o with OSetIn p k _ => free_in s p k | OSetOut p l _ => free_out s p l | ORun => True end.
+  match o with OSetIn p k _ => free_in s p k | OSetOut p l _ => free_out s p l | ORun => True | OSetBad _ _ => True end.
 
 Lemma synced_set_in_at : forall s v p k x, slinks s -> vshape s v -> synced s v -> free_in s p k ->
   synced s (set_in_at s v p k x).
@@ -3315,7 +3317,8 @@ Proof.
   - destruct (apply_op s v0 o) as [[v1 n]|] eqn:E1; [|discriminate]. inversion Hall; subst.
     assert (Hv1 : vshape s v1) by (eapply apply_op_vshape; eauto).
     assert (Hs1 : synced s v1).
-    { destruct o as [p k x|p lo x|]; simpl in E1, H2.
+    { destruct o as [p k x|p lo x| |p k]; simpl in E1, H2;
+        [| | |destruct (refuses_at s p k); [inversion E1; subst; exact Hs0|discriminate]].
       - inversion E1; subst. apply synced_set_in_at; auto.
       - inversion E1; subst. apply synced_set_out_at; auto.
       - destruct (run s v0) as [[[v2 c2] p2]|] eqn:Er; [|discriminate]. inversion E1; subst.
@@ -3437,3 +3440,7 @@ Proof.
   split; [apply (interface_thm outer_def "m" s v0 H)|].
   apply (sync_always outer_def "m" s v0 [] v0); auto.
 Qed.
+
+(* a refused update changes nothing (and an accepted non-int is outside the model) *)
+Theorem refused_update_unchanged s v p k v' n : apply_op s v (OSetBad p k) = Some (v', n) -> v' = v /\ refuses_at s p k = true.
+Proof. simpl. destruct (refuses_at s p k); [intros H; inversion H; auto|discriminate]. Qed.
